@@ -597,7 +597,7 @@ func init() {
 		if out.Err != "" && out.Snapshot == nil {
 			return errors.New(out.Err)
 		}
-		return c.Emit("hist", sqlHistIn{Ops: ops, Features: in.Features}, out)
+		return c.Emit("hist", withProp(sqlHistIn{Ops: ops, Features: in.Features}), out)
 	}
 	gen.Register("sqlhist", func(c *gen.Ctx) error {
 		defer func() {
